@@ -48,6 +48,10 @@ func (Prop) Rule() string {
 		"Retry paths of signing (first scripted nonce made to hit s = 0, r = 0 or r+k = n through a chosen digest; the signature must be the reference one for the second nonce) for every key; valid signatures constructed so that x([s]G+[t]P) lies in [n,p) must be accepted by every entry point. Chosen-digest candidates on each degenerate branch of the verification procedure (t = r+s = 0 mod n for 9 values of s x 3 digests incl. the one that makes R = r for the collapsed point; [s]G+[t]P = infinity via s = -t*d) for every key. Three additional triples with chosen small (r,s) on a crafted digest (k = s(1+d)+rd, e = r-x([k]G)) so that r+n and s+n fit in 32 bytes. Oracle in both directions for every candidate and entry point: library accepts <=> strict DER parse succeeds AND reference equation holds with r,s in [1,n-1]. " +
 		"Histories (E1): key objects with d in {valid, n-2, n-1, n, n+1, 2^256-1} built by 9 routes x BFS over all sequences of length <= 3 of {Sign(m1), Sign(digest), SignWithSM2, Decrypt, ECDH(), sm2.Sign func}, states merged on the full private state dump of the key object; d >= n-1: every Sign returns an error, nothing panics; valid d: signatures equal the reference. " +
 		"Legacy (non-SM2 curve, NIST P-256 through sm2_legacy.go): reduced completeness, one soundness triple, and invalid-scalar signing with a bounded reader. " +
+		"Widening in the generic input dimensions (widen*.go): a USED key object re-initialised by FromECPrivateKey (6 scalars x 6 scalars x 4 warm-ups); verification and signing entry points with every argument in exact-capacity buffers and in records (a|b|sig|slack, sig|b|a|slack, capacities reaching over the following arguments and 192-256 dirty bytes), arguments, *big.Int r/s, key and public-key objects compared with snapshots after every call, every call repeated on the same arguments, every returned slice/integer destroyed by the harness before the repeat; constructor arguments (NewPrivateKey, NewPrivateKeyFromInt, NewPublicKey, NewHash*) reused for the next constructor and destroyed; " +
+		"UID lengths 0..200 (thorough 0..600), 255..257, 511, 512, 4095..4097, 8190, 8191 and message lengths 0..200 (0..600) plus +-1 around 64k-32 for k in {8,9,16,17} ({..,32,33,64,65}) so that the ZA and e hashes see every residue mod 64, walked up and down on one key object; 32-byte digests {0,1,n-1,n,n+1,n+5,p-1,p,2^256-1,2^255,2^248-1} x 3 nonces x 7 digest-signing entry points (every kind of crypto.SignerOpts), digests of 0(nil),0,1,16,31,33,48,64,100 bytes (longer: documented truncation; shorter: sign-then-verify consistency only); all Write/Sum/Reset histories of depth <= 4 (5) on 5 hasher constructors incl. a SHA-256 inner hash and Sum(b) in 6 capacity classes; " +
+		"RecoverPublicKeysFromSM2Signature on the structured candidates of the 12 triples and on constructed signatures with x in [n,p) (no keys for anything that is not a strict-DER pair in [1,n-1]; every returned key satisfies the equation; the signer is among them); valid signatures whose final addition is a doubling ([s]G = [t]P) and valid signatures under the public key -G; 23 public keys with boundary coordinates (x = 0, 1.., p-1.., n.., 2^255, 2^224, both y, G, -G, [2]G) with constructed valid signatures; 16x16 chosen (r,s) pairs with 1..32 significant bytes produced BY the signing path (k = s(1+d)+rd, e = r-x([k]G)); failing calls (8192-byte UID, reader error/EOF/short) before and between good calls on cold and warm key objects; uid and msg aliased. " +
+		"math/big path: retry paths (s=0, r=0, r+k=n), degenerate verification branches (t=0, infinity, doubling), digest values/lengths on NIST P-256 (both curve objects); reduced completeness + 12 altered pairs on P-384 and P-521 (oracle: reference equation with generic affine arithmetic, ZA with 48/66-byte field elements). " +
 		"distinct_nontrivial counts (key,UID,msg,nonce) combinations, (triple, mutation class, parse/range class) classes and reached key-object states."
 }
 
@@ -56,7 +60,11 @@ func (Prop) Assumptions() []string {
 		"reference = verif/ref/ecref (affine big-integer arithmetic, GB/T 32918.2 sign/verify, strict DER), anchored by the GB/T 32918.5 examples; scalar multiplications are re-associated through 8-bit window tables built only from ecref.Add and cross-checked against ecref.Mul/Verify/SignWithK in the self-test",
 		"the nonce of a signature is the first 32-byte block of the reader that is in [1,n-1] and passes the standard's r/s checks (read from sm2_dsa.go randomPoint); the 1-byte randutil.MaybeReadByte coin is served from a separate lane; byte-for-byte comparison with the reference signature relies on this",
 		"an empty UID means the default UID 1234567812345678 for the signing/verifying entry points (documented library semantics); CalculateZA is checked with the literal UID including the empty one",
-		"digests handed to VerifyASN1/Verify are exactly 32 bytes (the standard's e); longer/shorter 'hash' arguments are not enumerated",
+		"the standard's e is a 32-byte digest; for longer 'hash' arguments only what SignASN1 documents is required (truncation to the leftmost 32 bytes, and the library verifies its own signature over the same bytes), for shorter ones only that the sm2 entry points verify what they signed; smx509 CheckSignatureWithDigest refuses any digest that is not 32 bytes long and is not asked there",
+		"RecoverPublicKeysFromSM2Signature is required to return no key for an invalid encoding/range and only keys that satisfy the equation; that it finds the signer is required for ordinary signatures, and for x([s]G+[t]P) in [n,p) only when it returns keys at all (it gives up when the other candidate x is off the curve)",
+		"NewSM2SignerOption and FromECPrivateKey keep references to what they are given (documented conversion semantics): only 'the argument is not modified' is required of them, not independence from later changes by the caller; a caller that assigns to the exported fields of a used key object is outside the enumerated space",
+		"legacy curves: P-224 is not enumerated (order narrower than the digest: the library truncates the digest, GB/T 32918.2 defines no truncation); on P-384/P-521 the mapping from the random stream to the nonce is not compared, only the verification equation",
+		"spare capacity handed to an append-style argument (hash.Hash.Sum(b)) is the callee's to write; only the prefix, the result and the state are compared",
 		"invalid public-key objects (off-curve, zero, negative, swapped, oversized coordinates) must be rejected without panic; oversized (> 256 bit) coordinates are not offered to the message-based entry points because CalculateSM2Hash documents a panic for invalid keys (soundness rule 2)",
 		"smx509 CheckSignature only supports the default UID and is exercised only for it; CheckSignatureFrom and chain building belong to C15",
 		"quick tier: soundness on 6 of the 12 triples; thorough: all 12 plus 2-deviation mutants of 2 triples (all 2-deviation mutants of all 12 triples would cost ~40 CPU-minutes per configuration)",
@@ -956,4 +964,5 @@ func (Prop) Run(c *engine.Ctx) {
 	}
 	runHistories(c)
 	runLegacy(c)
+	runWiden(c)
 }
